@@ -887,6 +887,7 @@ type c01Drain struct {
 	fin     int64
 	stable  bool
 	mono    bool
+	leftMid string // "" or "k:l": Left() was l after k operations of a profile whose Left() before the start was left0 != k + l
 	slack   int64 // implicit start: ns between that clock reading and the return of the EARLIEST first Next(); else -1
 	tooMany bool
 }
@@ -919,10 +920,17 @@ func c01DrainOnce(s core.Schedule, capN int, t0 time.Time, implicit bool, conc i
 		var wg sync.WaitGroup
 		var ready, gate int32
 		var before time.Time
+		panicked := make(chan string, conc)
 		for g := 0; g < conc; g++ {
 			wg.Add(1)
 			go func(g int) {
 				defer wg.Done()
+				// a panic inside Next() on a consumer's goroutine is this case's observation, not the end of the driver
+				defer func() {
+					if p := recover(); p != nil {
+						panicked <- fmt.Sprintf("%v @ %s", p, c01PanicSite())
+					}
+				}()
 				r := res{mono: true, first: -1}
 				atomic.AddInt32(&ready, 1)
 				for atomic.LoadInt32(&gate) == 0 {
@@ -964,7 +972,19 @@ func c01DrainOnce(s core.Schedule, capN int, t0 time.Time, implicit bool, conc i
 			t0 = before
 		}
 		atomic.StoreInt32(&gate, 1)
-		wg.Wait()
+		// a consumer that panics may leave a lock of the schedule held and the others blocked for ever: do not wait for them
+		allDone := make(chan struct{})
+		go func() { wg.Wait(); close(allDone) }()
+		select {
+		case <-allDone:
+		case p := <-panicked:
+			panic("consumer goroutine: " + p)
+		}
+		select {
+		case p := <-panicked:
+			panic("consumer goroutine: " + p)
+		default:
+		}
 		for g, r := range out {
 			if r.over {
 				d.tooMany = true
@@ -1015,6 +1035,12 @@ func c01DrainOnce(s core.Schedule, capN int, t0 time.Time, implicit bool, conc i
 				d.tooMany = true
 				return d
 			}
+			// Left() while the profile is being drained (one consumer): after k operations, left0 - k are left
+			if k := len(d.toks); d.leftMid == "" && (k == 1 || k == 5 || k == d.left0/2 || k == d.left0-1) {
+				if l := s.Left(); l != d.left0-k {
+					d.leftMid = fmt.Sprintf("%d:%d", k, l)
+				}
+			}
 		}
 	}
 	for i := 0; i < 3; i++ {
@@ -1029,11 +1055,29 @@ func c01DrainOnce(s core.Schedule, capN int, t0 time.Time, implicit bool, conc i
 	return d
 }
 
+// c01PanicSite: the innermost frames of github.com/yandex/pandora on the panicking goroutine's stack (function names only)
+func c01PanicSite() string {
+	pcs := make([]uintptr, 32)
+	n := runtime.Callers(3, pcs)
+	frames := runtime.CallersFrames(pcs[:n])
+	var out []string
+	for {
+		f, more := frames.Next()
+		if strings.Contains(f.Function, "github.com/yandex/pandora/") && len(out) < 3 {
+			out = append(out, f.Function[strings.LastIndex(f.Function, "/")+1:])
+		}
+		if !more {
+			break
+		}
+	}
+	return strings.Join(out, " | ")
+}
+
 // c01Odd: does this drain differ from the reference drain of the same configuration in what it handed out (number of
 // operations, their instants relative to the reported finish time), or does it show an instant before the clock
 // reading that preceded every Next()? Used to pick which of `trials=K` repetitions is shown to the Spec.
 func c01Odd(ref, d *c01Drain, implicit bool) bool {
-	if d.tooMany != ref.tooMany || !d.stable || !d.mono || d.left0 != ref.left0 || len(d.toks) != len(ref.toks) {
+	if d.tooMany != ref.tooMany || !d.stable || !d.mono || d.left0 != ref.left0 || len(d.toks) != len(ref.toks) || d.leftMid != "" {
 		return true
 	}
 	if implicit && (d.fin < 0 || (len(d.toks) > 0 && d.toks[0] < 0)) {
@@ -1271,6 +1315,9 @@ func c01Run(input string) string {
 	sl := ""
 	if implicit {
 		sl = fmt.Sprintf(" slack=%d", slack)
+	}
+	if d.leftMid != "" {
+		sl += " leftmid=" + d.leftMid
 	}
 	return fmt.Sprintf("left0=%d n=%d fin=%d finstable=%d mono=%d tmin=%d tmax=%d%s%s toks=%s", left0, n, fin, b(stable), b(mono), tmin, tmax, sl, parts, sb.String())
 }
